@@ -7,6 +7,8 @@
 (*    parser     "returned" | "refused"                                    *)
 (*    predicate  "true" | "false"                                          *)
 (*    consumer   "returned" | "refused"   (an accepted object handed on)   *)
+(*    variant    "returned" | "refused"   (a valid call, its octets given   *)
+(*               in another spelling: and the answer is the same)          *)
 (* "leaked:<class>" (a foreign exception) and "timeout" are not in it.     *)
 (* For a parse off a caller's stream the event carries how far the stream  *)
 (* was read and the length of what the object serializes to.               *)
@@ -14,9 +16,12 @@
 EXTENDS Integers, Sequences
 
 Allowed(kind) == CASE kind = "parser"    -> {"returned", "refused"}
+                   [] kind = "variant"   -> {"returned", "refused"}
                    [] kind = "predicate" -> {"true", "false"}
                    [] kind = "consumer"  -> {"returned", "refused"}
 OutcomeOK(e) == e.outcome \in Allowed(e.kind)
 \* a parse off a stream leaves it on the byte after the object
+\* the same octets spelled as bytes, a bytearray or a memoryview (the library's Octets) are one argument: the call gives one answer
+SpellingOK(e) == ("same" \in DOMAIN e) => e.same
 StreamOK(e) == ("consumed" \in DOMAIN e /\ e.outcome = "returned") => e.consumed = e.needed
 =============================================================================
